@@ -384,7 +384,7 @@ assignability matrix (`go/props/c03/assign_matrix.go`), validated against `go/ty
 may be used where an interface is expected — the rule the seeded regression
 `C03-untyped-bool-to-method-interface` broke in `typechecker.convert` — is stated outright.
 Tied to `scriggo.Build` by the differential matrix only. -/
-open ScriggoV.Assignable hiding ATy
+open ScriggoV.Assignable
 
 theorem bool_has_no_methods : ATy.bool.methods = [] := rfl
 
